@@ -738,3 +738,34 @@ package httpserver
 //@ func (*replacer).Set
 //@   requires r != nil && r.customReplacements != nil
 //@   modifies MV:map[string]string, MD:map[string]string
+
+//@ unit text_responses frames=on props=C12,C01 nilchecks=on filter=`httpserver\.(WriteTextResponse|DefaultErrorFunc|WriteSiteNotFound)$`
+//@ // C12 "exactly one well-formed response": the three plain-text responders write ONE header with the status they were
+//@ // given and one body. Other units count calls to them (errCalls, notFound): this unit is what such a call amounts to.
+//@ // hw: headers written, lastStatus: status of the last one, bodyWrites: calls of Write.
+//@ use @verif/specs/stdlib.spec:nethttp_api
+//@ ghost hw int
+//@ ghost lastStatus int
+//@ ghost bodyWrites int
+//@ extern invoke:(net/http.ResponseWriter).WriteHeader
+//@   modifies ghost:hw, ghost:lastStatus
+//@   ensures hw == old(hw) + 1 && lastStatus == statusCode
+//@ extern invoke:(net/http.ResponseWriter).Write
+//@   modifies ghost:bodyWrites
+//@   ensures bodyWrites == old(bodyWrites) + 1
+//@ extern (net/http.Header).Set
+//@ extern fmt.Sprintf
+//@ extern net/http.StatusText
+//@ extern log.Println
+//@ func WriteTextResponse
+//@   requires w != nil
+//@   modifies ghost:hw, ghost:lastStatus, ghost:bodyWrites
+//@   ensures [one_header_with_the_given_status_one_body] hw == old(hw) + 1 && lastStatus == status && bodyWrites == old(bodyWrites) + 1
+//@ func DefaultErrorFunc
+//@   requires w != nil
+//@   modifies ghost:hw, ghost:lastStatus, ghost:bodyWrites
+//@   ensures [one_header_with_the_given_status_one_body] hw == old(hw) + 1 && lastStatus == status && bodyWrites == old(bodyWrites) + 1
+//@ func WriteSiteNotFound
+//@   requires w != nil && r != nil
+//@   modifies ghost:hw, ghost:lastStatus, ghost:bodyWrites
+//@   ensures [one_404_or_421] hw == old(hw) + 1 && bodyWrites == old(bodyWrites) + 1 && ((r.ProtoMajor < 2 && lastStatus == 404) || (r.ProtoMajor >= 2 && lastStatus == 421))
